@@ -196,6 +196,9 @@ func Run(r *mon.Run) {
 	if r.WantEngine("stress") {
 		stress(r)
 	}
+	if r.WantEngine("http") {
+		httpRace(r)
+	}
 	r.Exhaustive(false)
 	r.Extra("complete_subspaces", "all admission orders of the halves of 2 and 3 requests x 6 base states (and of 4 requests in the thorough tier)")
 	r.Floor("io_halves_decided", 10000)
